@@ -42,6 +42,9 @@ type c14world struct {
 	phi                            *ir.InstPhi  // the phi appended by the harness (operand-level edits)
 	call2                          *ir.InstCall // the two-argument call appended by the harness
 	phiRep, phiWr, callRep, callWr bool
+	ag                             *ir.AttrGroupDef // attribute group holding one attribute twice
+	agRep, agDrop                  bool
+	nmd, nmdRen                    bool
 }
 
 func c14new() *c14world {
@@ -312,6 +315,35 @@ func c14ops() []c14op {
 			w.callWr = true
 			ops := w.call2.Operands()
 			*ops[len(ops)-1] = constant.NewInt(types.I32, 15)
+		}},
+	)
+	// lists a printer might "normalise" while printing (duplicates, sort orders): position-based
+	// edits after a print show whether the print wrote into the list.
+	ops = append(ops,
+		c14op{"attribute group { noinline readonly noinline nounwind \"k\"=\"v\" } on the first function", "append-attrgroup", "global-attr", func(w *c14world) bool { return len(w.funcs) > 0 && w.ag == nil }, func(w *c14world) {
+			w.ag = &ir.AttrGroupDef{ID: 0, FuncAttrs: []ir.FuncAttribute{enum.FuncAttrNoInline, enum.FuncAttrReadOnly, enum.FuncAttrNoInline, enum.FuncAttrNoUnwind, ir.AttrPair{Key: "k", Value: "v"}}}
+			w.m.AttrGroupDefs = append(w.m.AttrGroupDefs, w.ag)
+			w.funcs[0].FuncAttrs = append(w.funcs[0].FuncAttrs, w.ag)
+		}},
+		c14op{"replace the first attribute of the group in place (FuncAttrs[0] = cold)", "edit-attr-list", "global-attr", func(w *c14world) bool { return w.ag != nil && !w.agRep }, func(w *c14world) {
+			w.agRep = true
+			w.ag.FuncAttrs[0] = enum.FuncAttrCold
+		}},
+		c14op{"drop the first attribute of the group (FuncAttrs = FuncAttrs[1:])", "edit-attr-list", "global-attr", func(w *c14world) bool { return w.ag != nil && !w.agDrop }, func(w *c14world) {
+			w.agDrop = true
+			w.ag.FuncAttrs = w.ag.FuncAttrs[1:]
+		}},
+		c14op{"add named metadata !b10 and !b2", "append-named-metadata", "metadata", func(w *c14world) bool { return !w.nmd }, func(w *c14world) {
+			w.nmd = true
+			w.m.NamedMetadataDefs["b10"] = &metadata.NamedDef{Name: "b10"}
+			w.m.NamedMetadataDefs["b2"] = &metadata.NamedDef{Name: "b2"}
+		}},
+		c14op{"rename named metadata !b10 to !b1 (delete key, set Name, insert)", "rename-named-metadata", "metadata", func(w *c14world) bool { return w.nmd && !w.nmdRen }, func(w *c14world) {
+			w.nmdRen = true
+			d := w.m.NamedMetadataDefs["b10"]
+			delete(w.m.NamedMetadataDefs, "b10")
+			d.Name = "b1"
+			w.m.NamedMetadataDefs["b1"] = d
 		}},
 	)
 	ops = append(ops,
